@@ -43,7 +43,7 @@ def handleRun (rest : List String) : String :=
           let rrc : Int := (rc.toInt?).getD 99
           let img : Image := ld.img
           let r0 := runDasl M87C.disassemble img lower entries 300000
-          let r : Result := if ld.ok then { r0 with stderr := ld.err ++ r0.stderr } else ⟨false, "", [], [], [], [], [], false⟩
+          let r : Result := if ld.ok then { r0 with stderr := ld.err ++ r0.stderr } else ⟨false, "", [], [], [], [], [], [], [], [], false⟩
           let realOut := strOfBytes rso
           let realErr := strOfBytes rse
           let realLines := realOut.splitOn "\n"
@@ -54,7 +54,8 @@ def handleRun (rest : List String) : String :=
           let mErr := String.join ((r.stderr.filter (fun l => !isMarked l)).map (· ++ "\n"))
           let textEq := r.ok && matchesUndef r.stdout realListing && mUnknown == realUnknown
           let undef := (r.stdout.toList.filter (· == undefMark)).length / 2
-          let l1 := sameSet r.codeC ((r.areas.filter (!·.2)).map (·.1))
+          let l1 := sameSet r.codeC r.codeS && sameSet r.dataC r.dataS &&
+              (r.areas.filter (!·.2)).map (·.1) == r.codeS && (r.areas.filter (·.2)).map (·.1) == r.dataS
           let areasReal := Spec.parseAreas realOut
           let areasModel : List Spec.Area := r.areas.map (fun p => ⟨p.1.start, p.1.start + p.1.len - 1, p.2⟩)
           let direct : List Nat := entries.filterMap (fun e => match e with | .direct a => some a | _ => none)
